@@ -52,3 +52,44 @@ fn c15_serial_three_distinct() {
     assert!(a != b && b != d && a != d);
     kani::cover!(c == u32::MAX - 1);
 }
+
+/// C12/C13 (stage S1): the fixed 16-byte header. For every 16-byte string `PrimaryHeader::read` returns without
+/// panicking; on success the words are the ones on the wire in the byte order the first byte announces.
+#[kani::proof]
+#[kani::unwind(10)]
+#[kani::stub(alloc::fmt::format, no_format)]
+#[kani::stub(<std::os::fd::OwnedFd as core::ops::Drop>::drop, no_close)]
+fn c12_primary_header_total() {
+    let buf: [u8; 16] = kani::any();
+    let r = PrimaryHeader::read(&buf);
+    match &r {
+        Ok((h, fields_len)) => {
+            kani::cover!(true, "some header accepted");
+            let be = buf[0] == b'B';
+            assert!(be || buf[0] == b'l', "accepted an unknown endianness byte");
+            let rd = |o: usize| {
+                let w = [buf[o], buf[o + 1], buf[o + 2], buf[o + 3]];
+                if be {
+                    u32::from_be_bytes(w)
+                } else {
+                    u32::from_le_bytes(w)
+                }
+            };
+            assert!(h.body_len() == rd(4), "body length word differs from the wire");
+            assert!(h.serial_num().get() == rd(8), "serial word differs from the wire");
+            assert!(*fields_len == rd(12), "field-array length word differs from the wire");
+            assert!(h.protocol_version() == buf[3]);
+            assert!(h.msg_type() as u8 == buf[1]);
+            assert!(h.flags().bits() == buf[2], "flags differ from the wire");
+        }
+        Err(_) => {
+            kani::cover!(true, "some header rejected");
+        }
+    }
+    core::mem::forget(r);
+}
+
+pub fn no_format(_: core::fmt::Arguments<'_>) -> String {
+    String::new()
+}
+pub fn no_close(_: &mut std::os::fd::OwnedFd) {}
